@@ -559,6 +559,26 @@ def _delegate_common(ctx, r, what, want_mode, sig, base_cls, case_w):
     return None, rec, nt, cls
 
 
+def _same_costs(rec1, rec2):
+    """Same track object, same cost function, same parameter: the costs the delegate hands to optimalPartition for
+    the second call must be the ones it handed over for the first (whatever the requested direction)."""
+    import numpy as np
+    m1, m2 = rec1["matrix"], rec2["matrix"]
+    if m1.shape != m2.shape:
+        return {"what": "second call on the same track built a cost matrix of another shape",
+                "first": list(m1.shape), "second": list(m2.shape)}
+    N = m1.shape[0] - 1
+    for i in range(N):
+        for j in range(i + 1, N):
+            a, b = float(m1[i, j]), float(m2[i, j])
+            if not (a == b or (a != a and b != b)):
+                return {"what": "second call on the same track object with the same cost function handed OTHER segment "
+                                "costs to optimalPartition than the first call (a remembered work matrix?)",
+                        "cell": [i, j], "first_call": a, "second_call": b,
+                        "first_matrix": np.asarray(m1).tolist(), "second_matrix": np.asarray(m2).tolist()}
+    return None
+
+
 def run_seg(case, ctx):
     """optimalSegmentation / optimalSimplification with a harness cost."""
     seg, sim = _state["seg"], _state["sim"]
@@ -603,6 +623,23 @@ def run_seg(case, ctx):
         if w:
             w.update(case_w)
             return violated(w, sig, nt, cls)
+    # call history: the same delegate again on the SAME track object with the SAME cost function, other direction
+    want2 = MIN if want == MAX else MAX
+    rec1 = rec
+    del REC[:]
+    r2 = M.call(fn, tr, cost, g, want2, False)
+    case_w2 = dict(case_w, history="second call on the same track object and cost function, direction %s" % _mode_name(want2))
+    v, rec2, _nt2, _c2 = _delegate_common(ctx, r2, name + " (second call)", want2, sig, cls, case_w2)
+    if v is not None:
+        return v if v["v"] == "violated" else held(sig, nt, cls)
+    ctx.monitor("delegate.second_call_same_costs")
+    w = _same_costs(rec1, rec2)
+    if w is None and kind != "seg":
+        w = _check_fixes(ctx, tr, r2, rec2, name + " (second call)")
+    if w:
+        w.update(case_w2)
+        return violated(w, sig, nt, cls)
+    cls.append("history_second_call_same_track")
     return held(sig, nt, cls)
 
 
@@ -655,6 +692,23 @@ def run_simplify(case, ctx):
     if w:
         w.update(case_w)
         return violated(w, sig, nt, cls)
+    if smode in (7, 8):
+        # call history: simplify again on the SAME track object with the SAME cost function, other direction
+        smode2 = 15 - smode
+        want2 = MAX if smode2 == 8 else MIN
+        rec1 = rec
+        del REC[:]
+        r2 = M.call(sim.simplify, tr, f, smode2, False)
+        case_w2 = dict(case_w, history="second simplify() on the same track object and cost function, mode %d" % smode2)
+        v, rec2, _nt2, _c2 = _delegate_common(ctx, r2, "simplify(mode %d) (second call)" % smode2, want2, sig, cls, case_w2)
+        if v is not None:
+            return v if v["v"] == "violated" else held(sig, nt, cls)
+        ctx.monitor("delegate.second_call_same_costs")
+        w = _same_costs(rec1, rec2) or _check_fixes(ctx, tr, r2, rec2, "simplify(mode %d) (second call)" % smode2)
+        if w:
+            w.update(case_w2)
+            return violated(w, sig, nt, cls)
+        cls.append("history_second_call_same_track")
     return held(sig, nt, cls)
 
 
